@@ -268,18 +268,25 @@ static void c06_seq(Case& cs) {
   std::string name = cs.scratch + "/c06out";
   static const char* EXT[] = {"", ".gz", ".xz"};
   bool boundary = false;
-  {
+  // a quarter of the encoders are destroyed while an application exception propagates through their scope (what the calls
+  // returned as appended must reach the output all the same)
+  bool unwind = c.range(0, 3) == 0;
+  struct AppError {};
+  std::string pending_failure;
+  try {
     std::unique_ptr<CdnsEncoder> enc;
     if (named) enc.reset(new CdnsEncoder(name, (CborOutputCompression)comp));
     else enc.reset(new CdnsEncoder(out.give(), (CborOutputCompression)comp));
     for (auto& k : seq) {
       std::string r = ref_encode(k);
       size_t ret = do_call(*enc, k);
-      VF_CHECK(ret == r.size(), "sig=c06.return_value " << show_call(k) << " returned " << ret << ", reference " << r.size() << " (offset " << expect.size() << ")");
+      if (ret != r.size()) { std::ostringstream os; os << "sig=c06.return_value " << show_call(k) << " returned " << ret << ", reference " << r.size() << " (offset " << expect.size() << ")"; pending_failure = os.str(); break; }
       expect += r;
       boundary |= near_boundary(k);
     }
-  }
+    if (unwind && pending_failure.empty()) throw AppError();
+  } catch (const AppError&) {}
+  VF_CHECK(pending_failure.empty(), pending_failure);
   if (named) {
     VF_CHECK(read_file(name + EXT[comp], raw), "sig=c06.named_output_missing " << name << EXT[comp]);
     ::unlink((name + EXT[comp]).c_str());
@@ -294,6 +301,7 @@ static void c06_seq(Case& cs) {
   cs.nontrivial = expect.size() > EBUF && boundary;
   cs.st.cls(std::string("out:") + (named ? "name" : "fd") + EXT[comp]);
   if (expect.size() > EBUF) cs.st.cls("crossed_flush");
+  if (unwind) cs.st.cls("encoder_destroyed_during_unwinding");
   if (cs.nontrivial) { cs.sample = std::to_string(n) + " calls, " + std::to_string(expect.size()) + " B, first: "; for (size_t i = 0; i < seq.size() && i < 6; i++) cs.sample += show_call(seq[i]) + " "; }
 }
 
